@@ -47,6 +47,14 @@ func run(t *testing.T, sp spec) {
 				tr := Execute(t, s, sp.leak)
 				o = evid.Outcome{Classes: Classes(s, tr), Summary: summary(s, tr),
 					Counters: map[string]int{"output_slices": len(tr.Outs), "timeout_cut_slices": ShortSlices(s, tr), "elements_written": len(tr.WStart)}}
+				if tr.HarnessPanic != "" {
+					o.Skip = "harness panic (a defect of the harness, not a verdict): " + firstLine(tr.HarnessPanic)
+					return o
+				}
+				if sp.id == "C19" && tr.RetriedAfterSpin {
+					o.Skip = "first attempt of the case was abandoned; its goroutines would be counted as leaks"
+					return o
+				}
 				if tr.Spin && sp.id != "C03" && sp.id != "C10" && sp.id != "C16" {
 					o.Skip = "a goroutine spins and the case never finishes (decided by C03/C10/C16)"
 					return o
